@@ -34,6 +34,14 @@ ALIAS_DOCS = [
     "{ }:\nlet\n  s = {\n    a = 1;\n    l = [\n      1\n    ];\n  };\nin\ns\n",
     "let\n  s = { a = 1; };\nin\nlib.mk s\n",
 ]
+LETINHERIT_DOCS = [
+    "let\n  lib = {\n    a = {\n      k = 1;\n    };\n  };\n  inherit (lib) a;\n  b = a;\n  c = 3;\nin\n{\n  x = b;\n}\n",
+    "let\n  lib = { a = 1; d = 2; };\n  inherit (lib) a d;\n  b = d;\nin\n{\n  x = a;\n  s = {\n    t = b;\n  };\n}\n",
+    "{ lib }:\nlet\n  inherit (lib) a;\n  v = a;\n  k = 4;\nin\n{\n  x = v;\n  a = k;\n}\n",
+    "let\n  a = 1;\nin\nlet\n  inherit a;\n  b = a;\nin\nrec {\n  x = b;\n  m.y = a;\n}\n",
+]
+SCOPE_NAMES = ["a", "b", "c", "d", "v", "k", "n", "lib"]
+SCOPED_PATHS = ["@a.k", "@a", "@b", "@a.k.z", "@d.q", "@m", "@n", "@lib.a.k", "@lib.zz", "@@a", "@v.q", "@k", "x", "s.t", "x.q", "@b.q"]
 UNSUPPORTED_DOCS = [
     "[\n  1\n  2\n]\n", "\"str\"\n", "x: x\n", "{ a }: a\n", "", "1\n", "let\n  a = 1;\nin\na\n", "{ a }: [ a ]\n", "f x\n",
     "# only a comment\n", "{ a = 1; } // { b = 2; }\n", "if c then { a = 1; } else { a = 2; }\n", "{ a = 1; }.a\n", "null\n",
@@ -53,9 +61,11 @@ def generate(seed: int, tier: str) -> dict:
     st = Streams(seed)
     rng = st("refusal")
     r = rng.random()
-    if r < 0.4:
+    if r < 0.3:
         doc, family = rng.choice(ALIAS_DOCS), "alias"
-    elif r < 0.65:
+    elif r < 0.5:
+        doc, family = rng.choice(LETINHERIT_DOCS), "letinherit"
+    elif r < 0.7:
         doc, family = rng.choice(UNSUPPORTED_DOCS), "unsupported"
     else:
         doc, family = rng.choice(PLAIN_DOCS), "plain"
@@ -64,7 +74,21 @@ def generate(seed: int, tier: str) -> dict:
     for _ in range(rng.randint(2, 7 if tier == "quick" else 10)):
         tag += 1
         r = rng.random()
-        if family == "alias" and r < 0.25:
+        if family == "letinherit":
+            # the let layer is reached both through scoped CLI paths and directly through the scope mapping
+            if r < 0.4:
+                ops.append({"op": "set" if rng.random() < 0.6 else "rm", "path": rng.choice(SCOPED_PATHS), "value": str(tag)})
+            elif r < 0.6:
+                ops.append({"op": "scope_get", "name": rng.choice(SCOPE_NAMES)})
+            elif r < 0.8:
+                ops.append({"op": "scope_set", "name": rng.choice(SCOPE_NAMES), "value": tag})
+            elif r < 0.88:
+                ops.append({"op": "scope_del", "name": rng.choice(SCOPE_NAMES)})
+            elif r < 0.95:
+                ops.append({"op": "get", "keys": [rng.choice(["x", "s", "a", "m"])]})
+            else:
+                ops.append({"op": "rebuild"})
+        elif family == "alias" and r < 0.25:
             val = rng.choice([{"expr": "[ %d ]" % tag}, {"expr": "{ a = %d; z = 1; }" % tag}, {"q": tag}, tag, {"expr": "x: x"}, [tag]])
             ops.append({"op": "rebind", "name": "s", "value": val})
         elif r < 0.45:
@@ -105,6 +129,15 @@ def _apply(src, op: dict):
             src.rebuild()
         elif kind == "rebind":
             _scope_holder(src).scope[op["name"]] = mapping.to_python(op["value"])
+        elif kind == "scope_get":
+            # what the name of the let layer stands for (resolved through the layer's own chain)
+            got = _scope_holder(src).scope[op["name"]]
+            got = getattr(got, "value", got)
+            return "ok", ("seen", got.rebuild() if hasattr(got, "rebuild") else repr(got))
+        elif kind == "scope_set":
+            _scope_holder(src).scope[op["name"]] = mapping.to_python(op["value"])
+        elif kind == "scope_del":
+            del _scope_holder(src).scope[op["name"]]
         elif kind == "set":
             set_value(src, op["path"], op["value"])
         elif kind == "rm":
@@ -114,7 +147,8 @@ def _apply(src, op: dict):
             for k in op["keys"][:-1]:
                 cur = cur[k]
             if kind == "get":
-                cur[op["keys"][-1]]
+                got = cur[op["keys"][-1]]
+                return "ok", ("seen", got.rebuild() if hasattr(got, "rebuild") else repr(got))
             elif kind == "setitem":
                 cur[op["keys"][-1]] = mapping.to_python(op["value"])
             else:
@@ -143,7 +177,18 @@ def execute(case: dict):
         bump("skip:damaged_document")
         return viols, stats, keys
     failed_before = False
-    succeeded: list = []
+    accepted: list = []  # the operations the live object accepted so far: the history "without the refused ones"
+
+    def ghost_after(ops):
+        """A second object driven through *ops* only (each followed by a rebuild, like the live one)."""
+        g = parse(case["doc"])
+        for o in ops:
+            out, _ = _apply(g, copy.deepcopy(o))
+            if out != "ok":
+                return None
+            g.rebuild()
+        return g
+
     for i, op in enumerate(case["ops"]):
         bump("ops")
         try:
@@ -180,7 +225,7 @@ def execute(case: dict):
                 break
             if op["op"] in ("set", "rm") and err_live[0] not in ("KeyError", "ValueError"):
                 viols.append(Violation("C08.wrong_exception", "%s %r refused with %s: %s" % (op["op"], op.get("path"), err_live[0], err_live[1]), i, facts))
-        if out_live == "ok" and out_twin == "exc":
+        if out_live == "ok" and out_twin == "exc" and op["op"] not in ("scope_get", "scope_set", "scope_del"):
             # the fresh twin shows that this operation cannot be applied to this text: it must be refused
             viols.append(Violation("C08.accepted_on_live_object", "%s: the live object accepts what a fresh parse of the same text refuses with %r" % (op["op"], err_twin), i, facts))
             break
@@ -191,26 +236,34 @@ def execute(case: dict):
             bump("probe:live_refuses_what_fresh_accepts")
         elif out_live == "exc" and err_live[0] != err_twin[0]:
             bump("probe:refusal_class_differs_from_fresh")
-        if out_live == "exc":
-            failed_before = True
-        else:
-            succeeded.append((i, op, after))
-    else:
-        # "later edits behave as if the failed one had never happened": the same history without the refused
-        # operations, on a second object, prints the same text after every operation
-        if failed_before and succeeded and not viols:
-            ghost = parse(case["doc"])
-            for i, op, want in succeeded:
-                out, err = _apply(ghost, copy.deepcopy(op))
+        if failed_before and not viols:
+            # "later edits behave as if the failed one had never happened": a second object that went through the
+            # accepted operations only answers this operation in the same way - accepted or refused, the same text,
+            # the same value seen by a lookup
+            ghost = ghost_after(accepted)
+            if ghost is None:
+                bump("skip:ghost_history_not_reproducible")
+            else:
+                out_g, err_g = _apply(ghost, copy.deepcopy(op))
                 try:
-                    got = ghost.rebuild() if out == "ok" else None
+                    got = ghost.rebuild()
                 except Exception as e:  # noqa: BLE001
                     got = "rebuild raised %s" % type(e).__name__
                 bump("probe:compared_without_refusals")
-                if got != want:
-                    facts = {"family": case["family"], "op": op["op"], "refusal": True, "failed_before": True}
-                    viols.append(Violation("C08.later_edit_differs", "%s gives %r after refused operations and %r (%r) in the same history without them" % (op["op"], want[-160:], got and got[-160:], err), i, facts))
+                if out_g != out_live:
+                    viols.append(Violation("C08.later_edit_differs", "%s %r is %s (%r) after refused operations and %s (%r) in the same history without them" % (
+                        op["op"], op.get("path") or op.get("name") or op.get("keys"), out_live, err_live, out_g, err_g), i, facts))
                     break
+                if got != after:
+                    viols.append(Violation("C08.later_edit_differs", "%s gives %r after refused operations and %r in the same history without them" % (op["op"], after[-160:], got[-160:]), i, facts))
+                    break
+                if out_live == "ok" and err_live != err_g:
+                    viols.append(Violation("C08.later_edit_differs", "%s sees %r after refused operations and %r in the same history without them" % (op["op"], err_live, err_g), i, facts))
+                    break
+        if out_live == "exc":
+            failed_before = True
+        else:
+            accepted.append(op)
     return viols, stats, keys
 
 
